@@ -35,6 +35,11 @@ impl<'s, 'd, To> Quantize<'s, 'd, To> {
     }
 }
 
+/// Limit applied to scaled values before conversion to `i32`. This is far
+/// outside the range of the 8-bit output, and adding a zero point to it cannot
+/// overflow.
+const CLAMP_LIMIT: f32 = 65536.;
+
 impl<'d> SimdOp for Quantize<'_, 'd, u8> {
     type Output = &'d mut [u8];
 
@@ -45,6 +50,8 @@ impl<'d> SimdOp for Quantize<'_, 'd, u8> {
 
         let zp_vec = i32_ops.splat(self.zero_point as i32);
         let scale_vec = src_ops.splat(self.inv_scale);
+        let clamp_min = src_ops.splat(-CLAMP_LIMIT);
+        let clamp_max = src_ops.splat(CLAMP_LIMIT);
         let f32_v_len = src_ops.len();
 
         // Generate one vector of u8 elements in each iteration by quantizing
@@ -56,6 +63,11 @@ impl<'d> SimdOp for Quantize<'_, 'd, u8> {
             let src = src_ops.load_many::<4>(src_chunk);
             let quant_i32 = src.map(|x| {
                 let y = src_ops.mul(x, scale_vec);
+                // Clamp to a range that is wider than the output type but
+                // within the range of `i32`, so that values which are out of
+                // range for the float => int conversion (or infinite)
+                // saturate rather than wrap.
+                let y = src_ops.min(src_ops.max(y, clamp_min), clamp_max);
                 let y = src_ops.to_int_round(y);
                 i32_ops.add(y, zp_vec)
             });
@@ -67,7 +79,9 @@ impl<'d> SimdOp for Quantize<'_, 'd, u8> {
 
         // Quantize tail elements.
         for src in src_chunks.remainder() {
-            let y = (src * self.inv_scale).round_ties_even() as i32;
+            let y = (src * self.inv_scale)
+                .clamp(-CLAMP_LIMIT, CLAMP_LIMIT)
+                .round_ties_even() as i32;
             let y = (y + self.zero_point as i32).clamp(0, u8::MAX as i32);
             dest_writer.write_scalar(y as u8);
         }
